@@ -10,6 +10,7 @@ IDS=("$@"); [ ${#IDS[@]} -gt 0 ] || IDS=($(ls "$V/seeded"))
 mkdir -p "$V/.build/logs"
 for id in "${IDS[@]}"; do
   d="$V/seeded/$id"; [ -f "$d/patch.diff" ] || continue
+  if grep -q '"obsolete"' "$d/meta.json"; then echo "$id: OBSOLETE (see meta.json), skipped"; continue; fi
   if [ -n "$(git -C "$REPO" status --porcelain -- src Cargo.toml)" ]; then echo "$id: repository not clean, abort"; exit 2; fi
   if ! git -C "$REPO" apply "$d/patch.diff" 2>/dev/null; then
     if ! git -C "$REPO" apply -3 "$d/patch.diff" >/dev/null 2>&1; then echo "$id: PATCH DOES NOT APPLY"; git -C "$REPO" checkout -q -- . 2>/dev/null; git -C "$REPO" reset -q --hard >/dev/null 2>&1; continue; fi
